@@ -9,7 +9,7 @@
    parameter over which the theorems quantify (Workflow.compile's visiting order [ord];
    accept / reject is proved independent of it) or proved irrelevant (validateDAG's
    sweeps, the type inference loop).  Only statements, each closed by [exact]. *)
-From Eino Require Import Base.Util Model.Builder Proofs.Builder Proofs.BuilderReject Proofs.BuilderDag Proofs.BuilderSound Proofs.BuilderReject2 Proofs.BuilderInfer Proofs.BuilderWfOrder Proofs.BuilderReject3.
+From Eino Require Import Base.Util Model.Builder Proofs.Builder Proofs.BuilderReject Proofs.BuilderDag Proofs.BuilderSound Proofs.BuilderReject2 Proofs.BuilderInfer Proofs.BuilderWfOrder Proofs.BuilderReject3 Proofs.BuilderSticky.
 From Coq Require Import Permutation.
 Local Open Scope string_scope.
 Local Open Scope list_scope.
@@ -40,6 +40,31 @@ Example first_error_sticks_nonvacuous :
   = (set_err (Some EDupNode) (set_nodes [("a", mkNode NLambda true true false)] (g_init CGraph false)),
      [OOk; OErr EDupNode; OErr EDupNode; OErr EDupNode]).
 Proof. vm_compute. reflexivity. Qed.
+
+(* first_error_sticks, continued: the errors a Workflow meets while Compile makes its deferred
+   calls.  A failing deferred addEdge / addBranch is recorded in the build error (above); a
+   conflict of mapping targets is not recorded anywhere — and still sticks.  At every point of
+   every call sequence on a Workflow that has not been compiled yet: if a Compile fails with an
+   error that is not one of graph.compile's own rejections ([compile_time]: trigger / step-limit
+   option, no entry, no exit, un-inferable type, duplicate mapping target, invalid sub graph, cycle
+   — the ones a later call or other options can still repair), then every Compile of every later
+   call sequence fails, whatever orders the Compiles take. *)
+Theorem deferred_error_sticks :
+  forall st cs0 o ord sord w' e,
+    let w := final (wstep fixed) (w_init st) cs0 in
+    g_compiled (w_g w) = false ->
+    wstep fixed w (WCompile o ord sord) = (w', OErr e) -> ~ compile_time e ->
+    forall cs, Forall2 (fun call out => w_is_compile call = true -> is_err out) cs (snd (run_calls (wstep fixed) w' cs)).
+Proof. exact Proofs.BuilderSticky.deferred_error_sticks. Qed.
+Print Assumptions deferred_error_sticks.
+
+Example deferred_error_sticks_nonvacuous :
+  let w := final (wstep fixed) (w_init false) wf_unrecorded in
+  g_compiled (w_g w) = false /\
+  snd (wstep fixed w (WCompile opt_default [] [])) = OErr EMapConflict /\
+  g_err (w_g (fst (wstep fixed w (WCompile opt_default [] [])))) = None /\
+  ~ compile_time EMapConflict.
+Proof. exact wf_unrecorded_run. Qed.
 
 (* ------------------------------------------------------------------ rejects_each_kind *)
 (* For every state (hence at any position of any sequence) and every kind of ill-formedness
